@@ -172,7 +172,12 @@ func c13Check(c *Ctx, b *roaring.Bitmap, m *ISet, mutate bool) {
 				return
 			}
 			for i := 0; i < 25 && !c.Failed(); i++ {
-				op := mutateStep(c, vm, MutOpts{Light: true, NoClone: true, Sig: "FrozenView/then-"})
+				var op string
+				if r.Chance(0.2) {
+					op = algebraStep(c, vm, "FrozenView/then-")
+				} else {
+					op = mutateStep(c, vm, MutOpts{Light: true, NoClone: true, Sig: "FrozenView/then-"})
+				}
 				if c.Failed() {
 					return
 				}
